@@ -375,8 +375,31 @@ class CFG(object):
             self._link(preds, w)
             self._maybe_raise(w, frames)
             return self._block(s.body, [(w, 'next')], frames)
-        if isinstance(s, ast.Try):
+        if isinstance(s, ast.Try) or type(s).__name__ == 'TryStar':
             return self._try(s, preds, frames)
+        if hasattr(ast, 'Match') and isinstance(s, ast.Match):
+            # subject, then one test per case (pattern + guard); an irrefutable
+            # last case has no false edge
+            subj = ast.Expr(value=s.subject)
+            ast.copy_location(subj, s)
+            m = self._new('stmt', subj, stmt=s)
+            self._link(preds, m)
+            self._maybe_raise(m, frames)
+            cur = [(m, 'next')]
+            outs = []
+            for case in s.cases:
+                guard = case.guard if case.guard is not None else ast.Constant(value=True)
+                ast.copy_location(guard, case.pattern)
+                t = self._new('test', guard, stmt=s)
+                t.tag = 'case'
+                self._link(cur, t)
+                if case.guard is not None:
+                    self._maybe_raise(t, frames)
+                outs += self._block(case.body, [(t, 'true')], frames)
+                irrefutable = case.guard is None and isinstance(case.pattern, ast.MatchAs) \
+                    and case.pattern.pattern is None
+                cur = [] if irrefutable else [(t, 'false')]
+            return outs + cur
         raise AnalysisError('statement kind %s not modelled (line %s)'
                             % (type(s).__name__, getattr(s, 'lineno', '?')))
 
